@@ -15,7 +15,7 @@ func init() {
 		Explain: "Decided, over every first-party function reachable (static calls, function values, class-hierarchy resolution of interface calls) from the Extract/FileRequired/ToPURL/Ecosystem methods of the filesystem extractors registered in list.All that can run offline: " +
 			"D1 panic-freedom discipline — every index and slice expression is proved in bounds (difference-constraint prover: dominating branches, strings/regexp/builtin API contracts, loop counters, call-site facts of unexported helpers) or is an audited site with a stated data invariant and machine-checked witnesses; pointers that encoding/json or yaml decoding may leave nil (top-level &p targets, pointer fields, pointer elements of slices and maps, followed through first-party calls) are nil-tested before being dereferenced; nil-on-failure results are not used with ok/err discarded; single-value type assertions appear only on Package.Metadata (C14-D2) or audited; no possibly-nil *Package is appended to a result; " +
 			"D2/D3 failure confinement — the dispatch function returns nothing, a failed Open/Stat/Extract is recorded under the running extractor's name on every path, statuses are per extractor. " +
-			"Added in round 2: D4 termination structure — every recursive function reachable from an extractor is in an audited table with its termination argument and, where checkable, a witness (depth limit compared on entry and passed +1; byte budget compared, passed down and assigned back; recursion on a strict part of the argument), and a map consulted as a visited set inside a loop is updated with the very key looked up. NOT decided: nil dereferences in general, panics inside third-party parsers, integer overflow, termination and time/memory bounds (e.g. recursion over attacker-controlled parent links in the containerd extractor), absence of recover.",
+			"Added in round 2: D4 termination structure — every recursive function reachable from an extractor is in an audited table with its termination argument and, where checkable, a witness (depth limit compared on entry and passed +1; byte budget compared, passed down and assigned back; recursion on a strict part of the argument), and a map consulted as a visited set inside a loop is updated with the very key looked up. Added in round 8: D4 decoder loops — inside `for dec.More()` a failed json Decode leaves the loop. NOT decided: nil dereferences in general, panics inside third-party parsers, integer overflow, termination and time/memory bounds (e.g. recursion over attacker-controlled parent links in the containerd extractor), absence of recover.",
 		Assume:       []string{"audited sites are safe by the stated data invariant", "third-party decoders other than encoding/json and yaml never leave nil pointers (encoding/xml and BurntSushi/toml allocate)"},
 		ThoroughGOOS: []string{"linux", "windows", "darwin"},
 		Run:          runC02,
@@ -131,6 +131,8 @@ func runC02(p *Prog, r *Report) {
 	r.Count("bounds sites unproved", nu)
 	r.Rule("D1-nullable-fields", "a pointer field that is compared with nil somewhere is tested before every dereference")
 	nullableFieldDerefs(p, r, "D1-nullable-fields", fns)
+	r.Rule("D4-decoder-loops", "a json More() loop is left when Decode fails (the decoder's error is sticky)")
+	decoderLoopsStopOnError(p, r, "D4-decoder-loops", fns)
 	r.Rule("D1-nil-decode", "pointers that JSON/YAML decoding may leave nil are tested before they are dereferenced")
 	inScope := map[*ssa.Function]bool{}
 	for _, f := range fns {
